@@ -58,7 +58,7 @@ deriving DecidableEq, Repr
 /-- read / write faults of one run (`true` = the operation fails). -/
 structure Faults where
   stateRead : Bool := false   -- readFromTAFile fails (any error)
-  tombRead : Bool := false    -- readTombstones: open fails, not NotExist, not a decode error
+  tombRead : Bool := false    -- readTombstones: open/read fails, not NotExist, not a decode error ("unreadable")
   tombWrite : Bool := false   -- writeTombstones fails
   stateWrite : Bool := false  -- writeToTAFile fails
 deriving DecidableEq, Repr
@@ -67,11 +67,6 @@ deriving DecidableEq, Repr
 structure Params where
   addHold : Nat := 720 * 3600
   remHold : Nat := 2160 * 3600
-  /-- what the error branch after `readTombstones` does with an open error that
-  is neither NotExist nor a decode error: `true` = `tombstones = make(Tombstones)`
-  (the current tree), `false` = clear the trust set and abort like the corrupt
-  case (the fail-closed variant). Regenerated from the tree as a shape fact. -/
-  unreadableEmpty : Bool := true
 deriving DecidableEq, Repr
 
 inductive Write where
@@ -259,10 +254,12 @@ inductive TombRead where
   | corrupt
   | ok (ms : List Nat)
 
-/-- `readTombstones` and the error handling around it: in the current tree an
-open error other than NotExist yields an EMPTY map (not fail-closed). -/
-def readTomb (P : Params) (d : Disk) (fl : Faults) : TombRead :=
-  if fl.tombRead then (if P.unreadableEmpty then .ok [] else .corrupt) else
+/-- `readTombstones` and the error handling around it: NotExist is an empty
+store; EVERY other error — bytes that do not decode, or a file that exists but
+cannot be opened / read — clears the trust set and aborts the refresh (since
+/repo 1cde6e3; before, an open error yielded an empty map). -/
+def readTomb (d : Disk) (fl : Faults) : TombRead :=
+  if fl.tombRead then .corrupt else
   match d.tomb with
   | .absent => .ok []
   | .corrupt => .corrupt
@@ -304,7 +301,7 @@ def autoTA (P : Params) (cfg : List Key) (d : Disk) (live : List Key) (f : Optio
     (fl : Faults) (now : Nat) : Result :=
   let priorTrustValid := !live.isEmpty
   let cur0 := readState d live fl now
-  match readTomb P d fl with
+  match readTomb d fl with
   | .corrupt => { live := [], outcome := .perr }
   | .ok tomb0 =>
     let (cur, tomb) := prepare cfg cur0 tomb0 now
